@@ -1,13 +1,19 @@
 #!/bin/sh
-# usage: tools/try_mutant.sh <patch.diff> <C10|C12> [quick|thorough]  — applies the patch to /repo, runs the check, reverts.
+# usage: tools/try_mutant.sh <patch.diff> <C10|C12> [quick|thorough]  — applies the patch to the repository under test
+# (/repo, or $VERIF_REPO for background runs on a snapshot), runs the check, reverts.
 P="$1"; ID="$2"; TIER="${3:-quick}"
-cd /repo || exit 9
-git diff --quiet || { echo "/repo not clean"; exit 9; }
+HERE="$(cd "$(dirname "$0")/.." && pwd)"
+REPO="${VERIF_REPO:-/repo}"
+cd "$REPO" || exit 9
+git diff --quiet || { echo "$REPO not clean"; exit 9; }
 git apply "$P" || { echo "patch does not apply"; exit 9; }
-cd /verif
-./check "$ID" "$TIER" > /tmp/try_mutant.out 2>&1; RC=$?
-tail -6 /tmp/try_mutant.out
+cd "$HERE"
+OUT=$(mktemp /tmp/try_mutant.XXXXXX)
+./check "$ID" "$TIER" > "$OUT" 2>&1; RC=$?
+tail -6 "$OUT"
+grep -E "^VIOLATION-JSON" "$OUT" | head -3
 echo "check exit=$RC"
-cd /repo && git checkout -- . && git clean -fdq src tests 2>/dev/null
+rm -f "$OUT"
+cd "$REPO" && git checkout -- . && git clean -fdq src tests 2>/dev/null
 git status --short
 exit $RC
